@@ -333,6 +333,17 @@ Definition dec_op (p : Z * Z) : op :=
   | _ => ONop
   end.
 
+(* hazard_pointer_compare (the qsort comparator of hazard_pointer_scan): the
+   sign of the result = order of the two addresses as unsigned 64-bit values *)
+Definition cmp64 (a b : Z) : Z :=
+  match (a ?= b)%Z with Lt => (-1)%Z | Eq => 0%Z | Gt => 1%Z end.
+
+(* comparator differential mode: params -1 ahi alo bhi blo (32-bit halves) *)
+Definition cmp_case (ah al bh bl : Z) : list Z :=
+  let bad v := ((v <? 0) || (4294967295 <? v))%Z in
+  if bad ah || bad al || bad bh || bad bl then [(-1)%Z]
+  else retev 0 0 (cmp64 (ah * 4294967296 + al) (bh * 4294967296 + bl)).
+
 (* binary-search differential mode: needles 0..9 on the given haystack *)
 Definition bs_case (h : list nat) : list Z :=
   flat_map (fun needle =>
@@ -345,6 +356,7 @@ Definition run_case (l : list Z) : list Z :=
   match decode_case l with
   | Some c =>
       let p i := nthZ (c_params c) i in
+      if (p 0%nat =? -1)%Z then cmp_case (p 1%nat) (p 2%nat) (p 3%nat) (p 4%nat) else
       if (p 0%nat =? 0)%Z then
         let len := p 1%nat in
         if ((len <? 0) || (6 <? len) || (Z.of_nat (length (c_params c)) <? 2 + len))%Z then [(-1)%Z]
